@@ -14,9 +14,11 @@ import (
 )
 
 func ts(w []int, ret []int, fresh bool) *wsummary {
-	s := &wsummary{W: map[int]bool{}, G: map[*ssa.Global]bool{}, Ret: map[int]bool{}, Esc: map[[2]int]bool{}, Causes: map[string][]wcause{}, Fresh: fresh}
+	s := &wsummary{WS: map[int]bool{}, WD: map[int]bool{}, W: map[int]bool{}, G: map[*ssa.Global]bool{}, Ret: map[int]bool{}, Esc: map[[2]int]bool{}, Causes: map[string][]wcause{}, Fresh: fresh}
 	for _, i := range w {
 		s.W[i] = true
+		s.WS[i] = true
+		s.WD[i] = true
 	}
 	for _, i := range ret {
 		s.Ret[i] = true
